@@ -842,7 +842,8 @@ func c03Case(r *Rng) (Sx, string, bool) {
 		sort.Slice(items, func(i, j int) bool { return fsutilCompare(items[i].st.Path, items[j].st.Path) < 0 })
 	}
 	linkThrough := false
-	if metaMode && r.Chance(18) {
+	fltThrough := !metaMode && len(rej) > 0 && r.Chance(30) // the same shape with a rejecting Filter instead of the selector
+	if (metaMode && r.Chance(18)) || fltThrough {
 		// a name that the destination holds as a symlink to a directory outside is announced as a
 		// directory with a child the outside directory really has, both only recorded; then a
 		// hard link to that child which is transferred
@@ -877,11 +878,17 @@ func c03Case(r *Rng) (Sx, string, bool) {
 				c03Item{st: &types.Stat{Path: hl, Mode: 0644, ModTime: c03Mtime(r), Linkname: cd.name + "/" + cd.child}})
 			sort.Slice(keep, func(i, j int) bool { return fsutilCompare(keep[i].st.Path, keep[j].st.Path) < 0 })
 			items = keep
-			mo.set = true
-			mo.force(cd.name, false)
-			mo.force(cd.name+"/"+cd.child, false)
-			mo.force(hl, true)
-			merge = r.Chance(80)
+			if fltThrough {
+				rej = []string{cd.name}
+				fltSx = L(L(S(cd.name)), fltSx.L[1], fltSx.L[2])
+				merge = r.Chance(50)
+			} else {
+				mo.set = true
+				mo.force(cd.name, false)
+				mo.force(cd.name+"/"+cd.child, false)
+				mo.force(hl, true)
+				merge = r.Chance(80)
+			}
 			linkThrough = true
 		}
 	}
